@@ -346,7 +346,9 @@ def view_extra_decls(tier='quick'):
            mk('iter_arr_san_pred', 'any', '[i32; 3]', sanitizers=[Sanitizer('with', sa)], validators=[Validator('predicate', fn=pa)],
               aux=['arr_fns'], derives=['Debug', 'IntoIterator']),
            mk('strv_tr_ne', 'string', 'String', sanitizers=[Sanitizer('trim')], validators=[Validator('not_empty')],
-              derives=['Debug', 'Clone', 'PartialEq', 'Eq', 'PartialOrd', 'Ord', 'Hash', 'Borrow'])]
+              derives=['Debug', 'Clone', 'PartialEq', 'Eq', 'PartialOrd', 'Ord', 'Hash', 'Borrow']),
+           # other-family newtype around an inner type whose == is not reflexive (NaN inside)
+           mk('cmp_any_arrf', 'any', '[f32; 2]', derives=['Debug', 'Clone', 'PartialEq', 'PartialOrd'])]
     for d in out:
         d.verus = False
         d.kani = True
@@ -429,7 +431,9 @@ def h_cmp(d: Decl, props):
             '        let ia = ref_%s::sanitize(ra); let ib = ref_%s::sanitize(rb);\n' % (d.id, d.id))
     if 'PartialEq' in d.derives:
         body += '        assert!((a == b) == (ia == ib), "== agrees with the inner values");\n        assert!((a != b) == (ia != ib), "!= agrees with the inner values");\n'
+        body += '        assert!((a == a) == (ia == ia), "== of a value with itself agrees with the inner value (also where the inner == is not reflexive)");\n'
     if 'PartialOrd' in d.derives:
+        body += '        assert!(a.partial_cmp(&a) == ia.partial_cmp(&ia), "partial_cmp of a value with itself agrees with the inner value");\n'
         body += ('        assert!(a.partial_cmp(&b) == ia.partial_cmp(&ib), "partial_cmp agrees with the inner values");\n'
                  '        assert!((a < b) == (ia < ib) && (a <= b) == (ia <= ib) && (a > b) == (ia > ib) && (a >= b) == (ia >= ib), "comparison operators agree");\n')
     if 'Ord' in d.derives and d.family != 'float':
@@ -648,6 +652,51 @@ def h_deserialize(d: Decl, props, bounded=None, concrete=None, only_protocol=Fal
                    clause='deserialize(doc) is Ok(v) <=> the carried inner value deserializes and try_new(it) == Ok(v); otherwise Err')
 
 
+def h_deserialize_in_place(d: Decl, props, concrete=None, bounded=None):
+    """C04/C05: `Deserialize::deserialize_in_place` (public, safe, doc-hidden; serde's own Vec/Option
+    impls forward to it) on an EXISTING valid value: afterwards the value is still one the constructor
+    would return (valid, sanitized), and on success it is the constructor's value for the carried
+    inner value."""
+    S = concrete_self(d)
+    R = 'ref_' + d.id
+    if concrete is None:
+        val = anyval(d, 'raw') + anyval(d, 'old')
+        mode = '        let mode: u8 = 0;\n        let ok: bool = kani::any();\n'
+        oldv = 'old'
+    else:
+        val = '        let raw: String = String::from(%s);\n        let old: String = String::from(%s);\n' % (concrete[0], concrete[1])
+        mode = '        let mode: u8 = 0;\n        let ok: bool = %s;\n' % concrete[2]
+        oldv = 'old'
+    mk_place = ('        let mut place: %s = match %s::%s(%s) { %s };\n'
+                % (S, S, 'try_new' if d.has_validation else 'new', oldv,
+                   'Ok(v) => v, Err(_) => { kani::assume(false); unreachable!() }' if d.has_validation else 'v => v'))
+    if not d.has_validation:
+        mk_place = '        let mut place: %s = %s::new(%s);\n' % (S, S, oldv)
+    body = (sym_setup(d) + val + mode + mk_place +
+            '        unsafe { sfmt::EXPECT_NAME = "%s"; sfmt::NEWTYPE_CALLS = 0; sfmt::SEEN_NAME_OK = false; }\n' % d.name +
+            '        let r = <%s as serde::Deserialize>::deserialize_in_place(sfmt::Fmt { v: raw%s, ok, mode }, &mut place);\n' % (S, '.clone()' if d.family == 'string' else '') +
+            '        let now = place.into_inner();\n')
+    idem = not any(sa.fn is not None and sa.fn.name.startswith('san3') for sa in d.sanitizers)
+    cl = '.clone()' if d.family == 'string' else ''
+    if d.has_validation:
+        body += '        assert!(%s::valid(&now), "after deserialize_in_place (Ok or Err) the existing value still satisfies every declared validator");\n' % R
+    if idem:
+        body += ('        assert!(%s == %s, "after deserialize_in_place the existing value is still sanitized");\n'
+                 % (bits(d, '%s::sanitize(now%s)' % (R, cl)), bits(d, 'now')))
+    if d.has_validation:
+        body += ('        if ok { match (r, %s::try_new(raw)) {\n' % R +
+                 '            (Ok(()), Ok(e)) => assert!(%s == %s, "in-place deserialized value == constructor\'s value"),\n' % (bits(d, 'now'), bits(d, 'e')) +
+                 '            (Err(_), Err(_)) => {},\n'
+                 '            _ => assert!(false, "deserialize_in_place succeeds exactly when the constructor accepts the carried value"),\n'
+                 '        } } else { assert!(r.is_err(), "a failing inner value fails deserialize_in_place"); }\n')
+    else:
+        body += ('        if ok { assert!(r.is_ok() && %s == %s, "in-place deserialized value == new(carried value)"); } else { assert!(r.is_err(), "a failing inner value fails deserialize_in_place"); }\n'
+                 % (bits(d, 'now'), bits(d, '%s::sanitize(raw)' % R)))
+    what = 'Deserialize::deserialize_in_place' + ('' if concrete is None else '(%s)' % concrete[3])
+    return Harness(d, what, props, body, bounded=bounded,
+                   clause='deserialize_in_place(doc, &mut v) leaves v a value the constructor would return; on Ok it is try_new(carried value)')
+
+
 def h_serialize(d: Decl, props, concrete=None, bounded=None):
     S = concrete_self(d)
     I = concrete_inner(d)
@@ -766,7 +815,10 @@ def serde_string_decls():
               derives=['Debug', 'Serialize', 'Deserialize']),
            mk('sd_str_tr_nov', 'string', 'String', sanitizers=[Sanitizer('trim')], derives=['Debug', 'Serialize', 'Deserialize']),
            mk('sd_str_nos_max', 'string', 'String', validators=[Validator('len_char_max', aux.lit_bound(4))], derives=['Debug', 'Serialize', 'Deserialize']),
-           mk('sd_str_nothing', 'string', 'String', derives=['Debug', 'Serialize', 'Deserialize'])]
+           mk('sd_str_nothing', 'string', 'String', derives=['Debug', 'Serialize', 'Deserialize']),
+           # a rule that the EMPTY string violates (what `mem::take` leaves behind)
+           mk('sd_str_tr_ne_min', 'string', 'String', sanitizers=[Sanitizer('trim')], validators=[Validator('not_empty'), Validator('len_char_min', aux.lit_bound(1)), Validator('len_char_max', aux.lit_bound(4))],
+              derives=['Debug', 'Serialize', 'Deserialize'])]
     for d in out:
         d.verus = False
         d.kani = True
@@ -1217,6 +1269,14 @@ def float_decls(tier='quick'):
         out.append(mk('flt_%s_san_nov_tf' % t, 'float', t, sanitizers=[Sanitizer('with', s)], aux=[n5],
                       derives=['Debug', 'Clone', 'Copy', 'PartialEq', 'PartialOrd', 'AsRef', 'Deref', 'Borrow', 'Into', 'TryFrom']))
         out.append(mk('flt_%s_nothing' % t, 'float', t, derives=['Debug', 'Clone', 'Copy', 'PartialEq', 'PartialOrd', 'AsRef', 'Deref', 'Borrow', 'Into', 'From']))
+        # a sanitizer that maps NaN to a number (the other custom sanitizers are the identity on NaN)
+        s4, n7 = aux.custom('san4', t)
+        out.append(mk('flt_%s_san4_fin_le' % t, 'float', t, sanitizers=[Sanitizer('with', s4)], validators=[fin, Validator('less_or_equal', bu)],
+                      aux=[n7, n2], derives=FLOAT_DERIVES + ['Eq', 'Ord']))
+        out.append(mk('flt_%s_san4_ge' % t, 'float', t, sanitizers=[Sanitizer('with', s4)], validators=[Validator('greater_or_equal', bl)],
+                      aux=[n7, n1], derives=FLOAT_DERIVES))
+        out.append(mk('flt_%s_san4_nov' % t, 'float', t, sanitizers=[Sanitizer('with', s4)], aux=[n7],
+                      derives=['Debug', 'Clone', 'Copy', 'PartialEq', 'PartialOrd', 'AsRef', 'Deref', 'Borrow', 'Into', 'From']))
         # literal bounds (go through the macro's own number parser)
         lits = [('zero', 'greater_or_equal', '0.0'), ('negzero', 'greater', '-0.0'), ('big', 'less', '1e30'), ('small', 'greater', '1e-30'),
                 ('neg', 'less_or_equal', '-2.5'), ('intlit', 'less_or_equal', '100'), ('under', 'greater_or_equal', '1_000.5')]
@@ -1315,6 +1375,8 @@ def harnesses_for(prop, tier, seed):
         for d in decls:
             if prop == 'C04':
                 hs.append(h_deserialize(d, [prop], only_protocol=d.inner in ('i128', 'u128')))
+                if d.inner not in ('i128', 'u128') and not d.generics and d.family in ('int', 'float') and (tier == 'thorough' or d.inner in ('i32', 'f64', 'u8')):
+                    hs.append(h_deserialize_in_place(d, [prop]))
             else:
                 hs.append(h_serialize(d, [prop]))
                 if not d.sanitizers:
@@ -1329,6 +1391,9 @@ def harnesses_for(prop, tier, seed):
                                                    ('"x"', 1, 'true', 'protocol violation', 0), ('" a "', 0, 'true', 'text handed over as &str', 1),
                                                    ]:
                     hs.append(h_deserialize(d, [prop], bounded=B, concrete=(lit, mode, ok, tag, shape)))
+                for lit, old_, ok, tag in [('" b "', '"a"', 'true', 'valid document'), ('"abcde"', '"a"', 'true', 'rejected document (too long)'),
+                                           ('"x"', '"a"', 'false', 'inner fails')]:
+                    hs.append(h_deserialize_in_place(d, [prop], bounded=B, concrete=(lit, old_, ok, tag)))
             else:
                 hs.append(h_serialize(d, [prop], concrete=('" ab "', 'ab'), bounded=B))
                 hs.append(h_roundtrip_string(d, [prop], '"\\"a"', 'text with a quote', B))
@@ -1343,6 +1408,11 @@ def harnesses_for(prop, tier, seed):
             for e in ('TryFrom', 'FromStr', 'Deserialize', 'Arbitrary'):
                 if e in d.derives:
                     hs.append(h_valid_via(d, [prop], e))
+            if 'Deserialize' in d.derives and (tier == 'thorough' or d.inner in ('i32', 'f64')):
+                h = h_deserialize_in_place(d, [prop])
+                h.what = 'guards run: deserialize_in_place on an existing value'
+                h.key = '%s::%s' % (d.id, h.what)
+                hs.append(h)
         dd = [d for d in default_decls(tier) if not d.note.startswith('invalid-default') and d.has_validation and d.family != 'string']
         for d in dd:
             body = sym_setup(d) + '        { let dv: %s = %s; kani::assume(ref_%s::try_new(dv).is_ok()); }\n' % (concrete_inner(d), d.default_ref, d.id) + '        let i = <%s as Default>::default().into_inner();\n        assert!(ref_%s::valid(&i), "Default::default() yields a valid value (or panics)");\n' % (concrete_self(d), d.id)
@@ -1445,6 +1515,8 @@ def harnesses_for(prop, tier, seed):
         for d in ve:
             if 'IntoIterator' in d.derives:
                 hs.append(h_into_iter(d, [prop]))
+            if d.id == 'cmp_any_arrf':
+                hs.append(h_cmp(d, [prop]))
             if d.family == 'string':
                 hs.append(h_string_hash_ord(d, [prop], '" b "', '"a"'))
                 hs.append(h_string_hash_ord(d, [prop], '"ab"', '" ab"'))
@@ -1481,6 +1553,30 @@ def default_decls(tier='quick'):
         dv = mk('def_%s_symbolic_valid' % t, fam, t, validators=[Validator('greater_or_equal', bls)], aux=[n1, n2],
                 derives=['Debug', 'Default'], default='sym_hi_%s()' % t, default_ref='sym_hi_%s()' % t)
         out.append(dv)
+    # literal defaults next to rules the macro cannot evaluate (predicate, constant / symbolic bound):
+    # a "pre-validated at expansion time" shortcut must not skip them
+    for t in ['i32', 'u8', 'f64'] + (['i64', 'u128', 'f32'] if tier == 'thorough' else []):
+        fl = t in FLOAT_TYPES
+        fam = 'float' if fl else 'int'
+        p_, np_ = aux.custom('pred', t)          # x != 7
+        bl = Bound('0.0' if fl else '0', '', '(0 as %s)' % t if not fl else '(0.0 as %s)' % t)
+        bu = Bound('10.0' if fl else '10', '', '(10 as %s)' % t if not fl else '(10.0 as %s)' % t)
+        K = 'K_%s' % t.upper()                   # const = 10
+        kb = Bound(K, '', K)
+        seven, five, eleven = ('7.0', '5.0', '11.0') if fl else ('7', '5', '11')
+        for did, vals, auxn, dflt, invalid in [
+                ('def_%s_lit_pred_invalid' % t, [Validator('predicate', fn=p_)], [np_], seven, True),
+                ('def_%s_lit_pred_valid' % t, [Validator('predicate', fn=p_)], [np_], five, False),
+                ('def_%s_lit_bounds_pred_invalid' % t, [Validator('greater_or_equal', bl), Validator('less_or_equal', bu), Validator('predicate', fn=p_)], [np_], seven, True),
+                ('def_%s_lit_constbound_invalid' % t, [Validator('greater_or_equal', bl), Validator('less', kb)], [K], eleven, True),
+                ('def_%s_lit_constbound_valid' % t, [Validator('greater_or_equal', bl), Validator('less', kb)], [K], five, False)]:
+            dd = mk(did, fam, t, validators=vals, aux=auxn, derives=['Debug', 'Default'], default=dflt, default_ref=dflt)
+            if invalid:
+                dd.note = 'invalid-default'
+            out.append(dd)
+        bls, n1 = aux.sym_bound('lo', t)
+        out.append(mk('def_%s_lit_symbound' % t, fam, t, validators=[Validator('greater_or_equal', bls)], aux=[n1],
+                      derives=['Debug', 'Default'], default=five, default_ref=five))
     # strings: concrete defaults (CBMC executes them)
     out.append(mk('def_str_valid', 'string', 'String', sanitizers=[Sanitizer('trim')], validators=[Validator('not_empty')],
                   derives=['Debug', 'Default'], default='" ab "', default_ref='" ab "'))
